@@ -1,7 +1,8 @@
 #!/bin/bash
-# MANIFEST.setup_cmd: regenerate Gen/ from /repo, build the whole development (full .vo build).
+# MANIFEST.setup_cmd: build the whole development (full .vo build) from the committed sources.
+# coq/Gen/*.v are the committed reference copies (generated from the unchanged tree by tools/regen.py);
+# every check regenerates its own copies from /repo's working tree in its scratch build.
 set -o pipefail
 cd "$(dirname "$0")/.." || exit 2
-/venv/bin/python tools/regen.py coq || exit 1
 tools/mkproject.sh coq || exit 1
 cd coq && timeout 3000 make -j16 2>&1 | grep -v 'conda' | tail -5
